@@ -7,7 +7,9 @@ N=$1; TIER=${2:-quick}; shift; shift 2>/dev/null
 P=/verif/seeded/$N/patch.diff; [ -f "$P" ] || { echo "no $P"; exit 2; }
 IDS=${*:-${N%%-*}}
 [ -z "$(git -C /repo status --porcelain --untracked-files=no)" ] || { echo "/repo is not clean"; exit 2; }
-git -C /repo apply "$P" || exit 2
+trap '' PIPE                                   # a reader that stops early must not keep us from restoring /repo
+trap 'git -C /repo checkout -- . 2>/dev/null' EXIT
+git -C /repo apply --whitespace=nowarn "$P" || exit 2
 export VERIF_EVIDENCE_DIR=/var/tmp/verif-seeded-evidence; mkdir -p $VERIF_EVIDENCE_DIR
 rc=0
 for ID in $IDS; do
